@@ -129,6 +129,8 @@ def check_tool(case):
     any_err = any(per or gen for per, gen in expected)
     if (code != 0) != any_err:
         f.append(('exit-status', '%s: exit %r, reference says %s' % (lab, code, 'some graph has an error' if any_err else 'all graphs comply')))
+    if '--triples' in argv or '--reify-attributes' in argv:
+        return f          # output is not the input graph in PENMAN notation: only the exit status is judged
     try:
         outs = penman.loads(out, model=m)
     except Exception as e:
@@ -247,7 +249,7 @@ def _tool_cases(draw):
                 gs.append(draw(trees.wf_trees(spec, max_nodes=4, consts=TOOL_CONSTS, aligned=False)))
         sources.append(gs)
     return {'k': 'tool', 'sources': sources, 'stdin': stdin, 'model': spec,
-            'extra': draw(st.sampled_from([[], [], ['--indent', 'no'], ['--compact'], ['--canonicalize-roles']])) if spec['name'] != 'mini' or True else [],
+            'extra': draw(st.sampled_from([[], [], ['--indent', 'no'], ['--compact'], ['--canonicalize-roles'], ['--triples'], ['--reify-attributes']])),
             'subprocess': draw(st.integers(0, 49)) == 0}
 
 
